@@ -37,11 +37,13 @@ theorem cuu_inv {e : Emu} {rows cols : Nat} (h : EmuInv e rows cols) {n : Int} (
   refine { h with rowLo := ?_, rowHi := ?_ } <;> simp only <;> split <;> split <;> omega
 
 theorem cud_inv {e : Emu} {rows cols : Nat} (h : EmuInv e rows cols) {n : Int} (hn : POk n) :
-    EmuInv (cud e n) rows cols := by
+    EmuInv (cud Fixes.current e n) rows cols := by
   have hd := dflt1_ok hn
+  have hh : ({ e with lastCol := false } : Emu).height = rows := height_eq (e := { e with lastCol := false }) { h with }
   have := h.rowLo; have := h.rowHi; have := h.topLo; have := h.topLe; have := h.botHi
   unfold cud
-  refine { h with rowLo := ?_, rowHi := ?_ } <;> simp only <;> split <;> omega
+  simp only [Fixes.current, Bool.true_and, hh]
+  refine { h with rowLo := ?_, rowHi := ?_ } <;> simp only <;> split <;> split <;> simp_all <;> omega
 
 /-! ### scrolling -/
 
